@@ -559,3 +559,61 @@ def instances(tier):
         out.append(Inst(ssm_step_client, dict(retries=retries), budget=80 if q else 600, path_timeout=60))
         out.append(Inst(ssm_step_server, dict(retries=retries), budget=80 if q else 600, path_timeout=60))
     return out
+
+
+# ------------------------------------------------------------------ several IOCBs queued for one peer
+@meta(bounds="one IOCB client and one server; k requests submitted back to back through request_io to the same peer (the "
+             "per-destination queue serialises them); each request's fate chosen symbolically from {ack, error, reject, abort "
+             "by the server application, no answer at all}; retry count 0",
+      outside="more than k queued requests, several peers (C11), lossy medium (txn)",
+      stubs=["virtual clock (task._time)", "asyncore.loop -> clock advance", "task._Trigger -> wake flag", "fresh singletons per path"])
+def iocb_queue(d, k):
+    w = World()
+    lan = nl.FaultLAN([], world=w)
+    cdev = nl.make_device("c", 10, numberOfApduRetries=0, apduTimeout=APDU_TIMEOUT)
+    sdev = nl.make_device("s", 20)
+    client = nl.IOStack(cdev, lan)
+    server = nl.AppStack(sdev, lan, app_timeout=APP_TIMEOUT)
+    modes = [d.pick(["ack", "error", "reject", "abort", "silent"], 'fate%d' % i) for i in range(k)]
+    seq = list(modes)
+
+    # the server application answers the i-th request it is handed according to modes[i]
+    orig = server.do_ConfirmedPrivateTransferRequest
+
+    def handler(apdu):
+        server.pt_mode = seq[len(server.pt_seen)] if len(server.pt_seen) < len(seq) else "ack"
+        return orig(apdu)
+    server.do_ConfirmedPrivateTransferRequest = handler
+    ios = []
+    for i in range(k):
+        ios.append(client.submit(nl.private_transfer(server.address, bytes([i]))))
+    w.run()
+    want = {"ack": "ack", "error": "error", "reject": "reject", "abort": "abort", "silent": "abort"}
+    for i, io in enumerate(ios):
+        if len(io.calls) != 1:
+            raise Violation("iocb-completion-count", index=i, n=len(io.calls), fates=modes)
+        state, resp, err, t = io.calls[0]
+        out = resp if state == IO_COMPLETED else err
+        if state not in (IO_COMPLETED, IO_ABORTED):
+            raise Violation("iocb-state", index=i, state=state)
+        kind = nl.outcome_kind(out)
+        if kind != want[modes[i]]:
+            raise Violation("iocb-outcome", index=i, got=kind, want=want[modes[i]], fates=modes)
+        if t > (i + 1) * (APDU_TIMEOUT + APP_TIMEOUT) / 1000.0 + 1:
+            raise Violation("iocb-late", index=i, t=t)
+    # served in submission order, each handed to the server application once
+    got = [nl.payload_of(r, 'serviceParameters') for r in server.pt_seen]
+    if got != [bytes([i]) for i in range(k)]:
+        raise Violation("iocb-order", got=got)
+    if nl.residue(client) or nl.residue(server) or not w.idle():
+        raise Violation("residue", client=nl.residue(client), server=nl.residue(server))
+    d.reach()
+
+
+_c04_instances_2 = instances
+
+
+def instances(tier):
+    out = _c04_instances_2(tier)
+    out.append(Inst(iocb_queue, dict(k=2 if tier == "quick" else 3), budget=80 if tier == "quick" else 600))
+    return out
